@@ -30,10 +30,10 @@ struct Scalar {
   int skind = 0;  // string source kind (see StrKind)
 };
 
-enum StrKind { SK_STD = 0, SK_VIEW, SK_JSTR_COPIED, SK_LINKED, SK_CHARPTR, SK_JSTR_LINKED, SK_CHARARR, SK_COUNT };
+enum StrKind { SK_STD = 0, SK_VIEW, SK_JSTR_COPIED, SK_LINKED, SK_CHARPTR, SK_JSTR_LINKED, SK_CHARARR, SK_COUNT, SK_ARDUINO_STRING = 7, SK_FLASH = 8 };
 inline const char* strkind_name(int k) {
-  static const char* n[] = {"std::string", "string_view", "JsonString(copied)", "const char*", "char*", "JsonString(linked)", "char[]"};
-  return k >= 0 && k < SK_COUNT ? n[k] : "?";
+  static const char* n[] = {"std::string", "string_view", "JsonString(copied)", "const char*", "char*", "JsonString(linked)", "char[]", "Arduino String", "flash string"};
+  return k >= 0 && k <= SK_FLASH ? n[k] : "?";
 }
 inline bool strkind_sized(int k) { return k == SK_STD || k == SK_VIEW || k == SK_JSTR_COPIED; }
 
@@ -248,6 +248,22 @@ bool lib_set(T&& target, const Scalar& sc, World& w) {
           return r;
         }
         case SK_JSTR_LINKED: return target.set(JsonString(w.arena.keep(str), JsonString::Linked));
+#if ARDUINOJSON_ENABLE_ARDUINO_STRING
+        case SK_ARDUINO_STRING: {
+          ::String tmp(str.c_str());
+          bool r = target.set(tmp);
+          tmp = "################";
+          return r;
+        }
+#endif
+#if ARDUINOJSON_ENABLE_PROGMEM
+        case SK_FLASH: {
+          std::string tmp = str;
+          bool r = target.set(reinterpret_cast<const __FlashStringHelper*>(tmp.c_str() + 42));
+          for (auto& c : tmp) c = '#';
+          return r;
+        }
+#endif
         default: {
           char buf[64];
           if (str.size() >= sizeof buf) {
@@ -307,6 +323,22 @@ bool lib_add(T&& target, const Scalar& sc, World& w) {
           for (auto& c : tmp) c = '#';
           return r;
         }
+#if ARDUINOJSON_ENABLE_ARDUINO_STRING
+        case SK_ARDUINO_STRING: {
+          ::String tmp(str.c_str());
+          bool r = target.add(tmp);
+          tmp = "################";
+          return r;
+        }
+#endif
+#if ARDUINOJSON_ENABLE_PROGMEM
+        case SK_FLASH: {
+          std::string tmp = str;
+          bool r = target.add(reinterpret_cast<const __FlashStringHelper*>(tmp.c_str() + 42));
+          for (auto& c : tmp) c = '#';
+          return r;
+        }
+#endif
         default: {
           std::string tmp = str;
           bool r = target.add(tmp);
